@@ -80,6 +80,15 @@ type vcfg struct {
 	// decoy: the OCI document lists, BEFORE the statement under study, a wildcard statement with the opposite
 	// disposition (skip if the real one verifies, strict if the real one skips); scopes must then be set
 	decoy bool
+	// siblings: further statements of the same documents, each scoped to its own repository
+	// (registry.example/warm<k>) / named warm<k> in the blob document, with the main statement's stores and
+	// identities and their own level: the same long-lived verifier serves them too (verifySibling)
+	siblings []vSibling
+}
+
+type vSibling struct {
+	level    string
+	override map[string]string
 }
 
 func buildVerifier(c vcfg) (fullVerifier, error) {
@@ -106,7 +115,16 @@ func buildVerifier(c vcfg) (fullVerifier, error) {
 		}
 		ociDoc = world.OCIDoc(d, st)
 	}
-	opts := verifier.VerifierOptions{OCITrustPolicy: ociDoc, BlobTrustPolicy: world.BlobDoc(bst), PluginManager: c.mgr}
+	blobDoc := world.BlobDoc(bst)
+	for k, sb := range c.siblings {
+		stores, ids, ov := c.stores, c.identities, sb.override
+		if sb.level == "skip" {
+			stores, ids, ov = nil, nil, nil
+		}
+		ociDoc.TrustPolicies = append(ociDoc.TrustPolicies, world.Statement(fmt.Sprintf("warm%d", k), sb.level, ov, stores, ids, []string{fmt.Sprintf("registry.example/warm%d", k)}))
+		blobDoc.TrustPolicies = append(blobDoc.TrustPolicies, world.BlobStatement(fmt.Sprintf("warm%d", k), sb.level, ov, stores, ids, false))
+	}
+	opts := verifier.VerifierOptions{OCITrustPolicy: ociDoc, BlobTrustPolicy: blobDoc, PluginManager: c.mgr}
 	if c.validator != nil {
 		if c.legacy {
 			opts.RevocationClient = world.LegacyClient{V: c.validator}
@@ -148,6 +166,15 @@ func verifyEntry(ctx context.Context, v fullVerifier, entry int64, desc ocispec.
 			notation.BlobVerifierVerifyOptions{SignatureMediaType: format})
 	}
 	return v.Verify(ctx, desc, sig, notation.VerifierVerifyOptions{ArtifactReference: "registry.example/repo@" + desc.Digest.String(), SignatureMediaType: format})
+}
+
+// verifySibling verifies sig under sibling statement k of the verifier's documents (see vcfg.siblings).
+func verifySibling(ctx context.Context, v fullVerifier, entry int64, k int, desc ocispec.Descriptor, sig []byte, format string) (*notation.VerificationOutcome, error) {
+	if entry == 1 {
+		return v.VerifyBlob(ctx, func(digest.Algorithm) (ocispec.Descriptor, error) { return desc, nil }, sig,
+			notation.BlobVerifierVerifyOptions{SignatureMediaType: format, TrustPolicyName: fmt.Sprintf("warm%d", k)})
+	}
+	return v.Verify(ctx, desc, sig, notation.VerifierVerifyOptions{ArtifactReference: fmt.Sprintf("registry.example/warm%d@%s", k, desc.Digest), SignatureMediaType: format})
 }
 
 const idPluginName = "identity-plugin"
